@@ -500,7 +500,7 @@ PROBES_EXPECTED = {
 def main_replay(path, quiet=False):
     rep = json.load(open(path))
     hs = rep.get("pythonhashseed")
-    if "hashseeds" in rep:
+    if "hashseeds" in rep and not os.environ.get("LEAGUESIM_NUMDIGEST"):
         # hash-seed dependence: run the op list under both seeds, compare number digests
         nds = []
         for h in rep["hashseeds"]:
